@@ -36,6 +36,12 @@ PLANS = {
     "C06": dict(level="model_checking", assumptions=TRUST + ["values of merge calls / outputs are named (source, position) by exact byte equality with the values the sources hold"],
                 mc=[MC("MCMerger", "MCMerger.cfg", workers=8)],
                 gen=[G("merge", 400, 15000, "TraceMerger", "TraceMerger.cfg")]),
+    "C07": dict(level="model_checking", assumptions=TRUST + ["hook H2 lowers the minimum budget / initial capacity for the small-scale runs; rayon schedules are sampled (pool sizes), not enumerated"],
+                gen=[G("sorter", 320, 12000, "TraceSorter", "TraceSorter_C07.cfg"),
+                     G("sorter_real", 2, 24, "TraceSorter", "TraceSorter_C07.cfg")]),
+    "C08": dict(level="model_checking", assumptions=TRUST + ["hook H2 lowers the minimum budget / initial capacity for the small-scale runs"],
+                gen=[G("spill", 160, 4000, "TraceSorter", "TraceSorter_C08.cfg"),
+                     G("sorter_real", 2, 24, "TraceSorter", "TraceSorter_C08.cfg")]),
     "C09": dict(level="model_checking", assumptions=TRUST + ["independent decoder: sequential walk, codec crates, LEB128 framing parser"],
                 gen=[G("format", 400, 12000, "TraceLayout", "TraceLayout_C09.cfg")]),
     "C15": dict(level="model_checking", assumptions=TRUST + ["independent decoder: sequential walk, codec crates, LEB128 framing parser"],
